@@ -280,6 +280,11 @@ func (t *Transport) RoundTrip(req *http.Request) (*http.Response, error) {
 		return nil, err
 	}
 	sreq.Header = req.Header.Clone()
+	if req.ContentLength < 0 && len(reqBody) > 0 {
+		// a body of undeclared length arrives chunked, as with net/http
+		sreq.ContentLength = -1
+		sreq.TransferEncoding = []string{"chunked"}
+	}
 	sreq.Host = req.Host
 	if sreq.Host == "" {
 		sreq.Host = req.URL.Host
